@@ -56,7 +56,9 @@ class PtypeHooks(Hooks):
         if out.ok and ev.get('id') and 'ptype' in ev.get('k', {}) and ev['fn'] != 'Wavefront':
             g = ev['k']['ptype']
             self.given_ptype[ev['id']] = g['$ptype'] if isinstance(g, dict) else (None if g is None else str(g))
-        if ev['fn'] == 'Wavefront' and out.ok:
+        if ev['fn'] == 'Wavefront.empty':
+            it.probe('empty_wavefront_constructor')
+        if ev['fn'] in ('Wavefront', 'Wavefront.empty') and out.ok:
             # the start of every program: a new wavefront has the type it was given, none when it was given none
             given = ev.get('k', {}).get('ptype')
             want = 'none' if given is None else (given['$ptype'] if isinstance(given, dict) else str(given))
@@ -181,8 +183,8 @@ class PtypeHooks(Hooks):
                 it.probe('refuse_after_attribute_update')
             if kind == 'mul' and not w.data:
                 it.probe('refused_on_a_dark_wavefront')
-        if kind == 'mul' and tag.get('after_propagation_same_sampling'):
-            it.probe('sampled_plane_right_after_propagation')
+            if kind == 'mul' and tag.get('segmented_operand'):
+                it.probe('refused_on_a_segmented_wavefront')
             if it.dig(w) != dw:
                 it.violate('C08.refusal_atomic', {'fn': fn, 'operand': 'wavefront', 'exc': type(out.exc).__name__},
                            'wavefront changed by a refused %s' % fn, i)
@@ -195,6 +197,8 @@ class PtypeHooks(Hooks):
             if str(w.ptype) != wt:
                 it.violate('C08.refusal_atomic', {'fn': fn, 'operand': 'wavefront-ptype', 'exc': 'none'},
                            'input wavefront type changed from %s to %s by %s' % (wt, w.ptype, fn), i)
+        if kind == 'mul' and tag.get('after_propagation_same_sampling'):
+            it.probe('sampled_plane_right_after_propagation')
 
 
 class PtypeScenario(Scenario):
@@ -220,7 +224,7 @@ class PtypeScenario(Scenario):
         self.must_hit = cells + props + ['refuse_after_transition', 'class:Pupilxnone', 'class:Pupilxpupil',
                                          'class:Imagexnone', 'class:Imageximage', 'class:Tiltxpupil', 'class:Tiltximage',
                                          'class:DispersiveTiltxpupil', 'class:Rotatexpupil', 'class:Flipxpupil', 'explicit_ptype_kw',
-                                         'wavefront_constructor_arguments', 'refuse_after_attribute_update', 'refused_on_a_dark_wavefront', 'sampled_plane_right_after_propagation', 'refused_type_assignment', 'short_lived_planes', 'planes_saved_by_another_interpreter']
+                                         'wavefront_constructor_arguments', 'refuse_after_attribute_update', 'refused_on_a_dark_wavefront', 'sampled_plane_right_after_propagation', 'refused_type_assignment', 'short_lived_planes', 'planes_saved_by_another_interpreter', 'empty_wavefront_constructor', 'refused_on_a_segmented_wavefront']
         self.probe_names = self.must_hit + ['coldwarm_audit']
 
     @property
@@ -238,6 +242,7 @@ class PtypeScenario(Scenario):
         dx = wl * f / (du * n0)
         shapes = {'S0': [rng.randint(3, 10), rng.randint(3, 10)], 'S1': [rng.randint(2, 9), rng.randint(2, 9)]}
         return {'shapes': shapes, 'cache': rng.choice([32, 32, 0, 1, 2]), 'rng_seed': rng.randrange(2 ** 31),
+                'empty_pt': [rng.choice(['pupil', 'image', 'none']), rng.choice(['name', 'name', 'object', 'omitted'])],
                 'geoms': [[rng.choice([1, 2]), rng.randint(2, 8), rng.choice([0, 1])] for _ in range(2)],
                 'phys': {'wl': wl, 'du': du, 'f': f, 'dx': dx, 'n0': n0}}
 
@@ -276,6 +281,11 @@ class PtypeScenario(Scenario):
         add('Image', 'IMGPX2', k={'pixelscale': [ph['du'] / 2, ph['du'] / 2]})
         add('Image', 'IMGAMP', k={'amp': '@a1'})
         add('Tilt', 'TLTAMP', k={'x': 1e-6 / ph['f'], 'y': 0.0, 'amp': 0.9})
+        # two segments split along the diagonal: disjoint pixel-wise, bounding boxes overlapping
+        r0_, c0_ = world['shapes']['S0']
+        seg0_ = [[1.0 if (rr * c0_ >= cc * r0_) else 0.0 for cc in range(c0_)] for rr in range(r0_)]
+        add('array', 'ms0', recipe={'kind': 'list', 'values': [seg0_, [[1.0 - v for v in row] for row in seg0_]]})
+        add('Pupil', 'PUPSEG', k={'amplitude': '@a0', 'mask': '@ms0', 'pixelscale': ph['dx'], 'focal_length': ph['f']})
         add('Image', 'IMG', k={})
         add('Image', 'IMGA', k={'amplitude': '@a1'})
         add('Plane', 'PLN', k={'amplitude': '@a0', 'pixelscale': ph['dx']})
@@ -298,6 +308,10 @@ class PtypeScenario(Scenario):
         add('Wavefront', 'w_none', a=[ph['wl']])
         add('Wavefront', 'w_pupil', a=[ph['wl']], k={'ptype': 'pupil'})
         add('Wavefront', 'w_image', a=[ph['wl']], k={'ptype': 'image'})
+        # the other public constructor: a wavefront without fields, its type given by name, as an object, or not at all
+        ept = world.get('empty_pt', ['pupil', 'name'])
+        add('Wavefront.empty', 'w_empty', a=[ph['wl']],
+            k=({} if ept[1] == 'omitted' else {'ptype': ept[0] if ept[1] == 'name' else {'$ptype': ept[0]}}))
         # every constructor argument: a wavefront's type is what it was given (none when nothing was given), whatever else it carries
         add('Wavefront', 'w_none_f', a=[ph['wl']], k={'focal_length': ph['f'] * 2})
         add('Wavefront', 'w_none_px', a=[ph['wl']], k={'pixelscale': ph['dx'], 'diameter': 1.0, 'ptype': None})
@@ -320,6 +334,8 @@ class PtypeScenario(Scenario):
         P['PUP2'] = {'pt': cls['Pupil'], 'px': dx, 'arr': True, 'shape': S0, 'fl': ph['f'] * 1.5, 'tilt': False, 'pupil': True}
         P['PUPS2'] = {'pt': cls['Pupil'], 'px': None, 'arr': False, 'shape': (), 'fl': ph['f'] * 0.75, 'tilt': False, 'pupil': True}
         P['PUPAMP'] = {'pt': cls['Pupil'], 'px': dx, 'arr': True, 'shape': S0, 'fl': ph['f'], 'tilt': False, 'pupil': True}
+        # a segmented pupil: a wavefront that met it carries one field per segment (their bounding boxes may overlap)
+        P['PUPSEG'] = {'pt': cls['Pupil'], 'px': dx, 'arr': True, 'shape': S0, 'fl': ph['f'], 'tilt': False, 'pupil': True}
         P['IMGPX1'] = {'pt': cls['Image'], 'px': (ph['du'], ph['du']), 'arr': True, 'shape': S1, 'fl': None, 'tilt': False}
         P['IMGPX2'] = {'pt': cls['Image'], 'px': (ph['du'] / 2, ph['du'] / 2), 'arr': False, 'shape': (), 'fl': None, 'tilt': False}
         # two stops whose masks do not overlap: a wavefront that met both carries no field at all ("dark") and keeps its type
@@ -355,7 +371,10 @@ class PtypeScenario(Scenario):
             return base
         ph = world['phys']
         dx = (ph['dx'], ph['dx'])
-        return base + [{'id': 'w_none_f', 't': 'none', 'px': None, 'fl': ph['f'] * 2, 'arr': False, 'tilt': False, 'shape': ()},
+        ept = world.get('empty_pt', ['pupil', 'name'])
+        return base + [{'id': 'w_empty', 't': 'none' if ept[1] == 'omitted' else ept[0], 'px': None, 'fl': inf, 'arr': False, 'tilt': False, 'shape': (),
+                        'dark': True},
+                       {'id': 'w_none_f', 't': 'none', 'px': None, 'fl': ph['f'] * 2, 'arr': False, 'tilt': False, 'shape': ()},
                        {'id': 'w_none_px', 't': 'none', 'px': dx, 'fl': inf, 'arr': False, 'tilt': False, 'shape': ()},
                        {'id': 'w_none_t', 't': 'none', 'px': None, 'fl': inf, 'arr': False, 'tilt': True, 'shape': ()},
                        {'id': 'w_pupil_f', 't': 'pupil', 'px': dx, 'fl': ph['f'] * 0.5, 'arr': False, 'tilt': False, 'shape': ()},
@@ -600,6 +619,10 @@ class PtypeScenario(Scenario):
             events.append({'c': 0, 'fn': 'w*p', 'a': ['@' + res['id'], '@PLN'], 'id': 'badpx2_' + meth, 't': {'px_conflict': True}})
             events.append({'c': 0, 'fn': 'Plane.multiply', 'a': ['@IMGA', '@' + res['id']], 'id': 'ia_' + meth})
             events.append({'c': 0, 'fn': 'Plane.multiply', 'a': ['@TLT', '@' + res['id']], 'id': 'it_' + meth})
+            # ... and that image-plane wavefront, now carrying tilt, is still an image: the DFT takes it back to a pupil
+            mt_ = self.mul_model(res, 'TLT', P['TLT'], 'it_' + meth)
+            evb_, _ = self.prop_event(rng, world, 0, mt_, 'itb_' + meth, method='propagate_dft', tag={'tilted_image_back': True})
+            events.append(evb_)
             events.append({'c': 0, 'fn': 'Plane.multiply', 'a': ['@DSP', '@' + res['id']], 'id': 'id_' + meth})
         for meth in PROP:
             ev, _ = self.prop_event(rng, world, 0, wn, 'np_' + meth, method=meth)
@@ -617,6 +640,11 @@ class PtypeScenario(Scenario):
             events.append({'c': 0, 'fn': 'deepcopy', 'a': ['@' + res['id']], 'id': 'cic_' + meth, 't': {'copy': True}})
             ev2, _ = self.prop_event(rng, world, 0, dict(res, id='cic_' + meth), 'cpu_' + meth, method='propagate_dft')
             events.append(ev2)
+        # a wavefront with one field per segment (overlapping bounding boxes) meets planes that must refuse it: it is what it was
+        events.append({'c': 0, 'fn': 'Plane.multiply', 'a': ['@PUPSEG', '@w_none'], 'id': 'pseg'})
+        for n_, pid_ in enumerate(('IMG', 'IMGA', 'g_image', 'g_none', 'PLN')):
+            events.append({'c': 0, 'fn': ['Plane.multiply', 'w*p', 'p*w', 'w*=p'][n_ % 4], 'id': 'pseg_%s' % pid_,
+                           'a': (['@pseg', '@' + pid_] if n_ % 4 in (1, 3) else ['@' + pid_, '@pseg']), 't': {'segmented_operand': True}})
         # a wavefront that lost all its fields (two stops with disjoint masks) is still a pupil wavefront: same table, same refusals
         events.append({'c': 0, 'fn': 'Plane.multiply', 'a': ['@PUPL', '@w_none'], 'id': 'dk1'})
         events.append({'c': 0, 'fn': 'w*p', 'a': ['@dk1', '@PUPR'], 'id': 'dk2', 't': {'dark': True}})
